@@ -1052,7 +1052,9 @@ fn gen_c19(seed: u64, _index: u64, tier: Tier) -> ServerPlan {
                     piece: 0,
                     piece_gap_ms: 0,
                     after: "wait".into(),
-                    listen_ms: 1_500,
+                    // four network legs of up to 300 ms each, plus a wait for
+                    // the configuration lock behind a reload
+                    listen_ms: 6_000,
                     what: format!("holder query {name} A (forwarded, slow)"),
                 });
             }
